@@ -135,6 +135,10 @@ fn op_pn(sink: &mut Sink, pn: u64, la: u64, exp: u64) {
             sink.branch(&format!("encode:{}", show(e).split(':').next().unwrap()));
             if dom {
                 sink.nontrivial();
+                // RFC 9000 §17.1: the encoding must represent more than twice the distance to the largest acked
+                if (pn - la) * 2 >= 1u64 << (8 * e.size()) {
+                    sink.monitor_fail("window_not_twice_gap", &format!("pn={} la={}: {} byte(s) chosen, 2*(pn-la)={} does not fit", pn, la, e.size(), (pn - la) * 2));
+                }
                 if dec_s != format!("{}", pn) {
                     sink.monitor_fail("wire_roundtrip", &format!("pn={} la={} exp={}: decode(take(put(encode))) = {}", pn, la, exp, dec_s));
                 }
